@@ -403,10 +403,81 @@ def _count_call(ev, state, node, name):
         write_ref(state, ref, SymVal(T.INT, v.term + 1))
 
 
+def _capture_call(ev, state, node, name):
+    """contract.ghost['capture_calls'] = [last name components]: the keyword arguments of such calls
+    (and, for multiprocessing.Process, the entries of its `kwargs` dict literal, keyed by the target's
+    name) are recorded as ghost values readable with arg_of('callee', 'keyword')"""
+    cap = ev.ctx.contract.ghost.get('capture_calls') if ev.ctx.contract else None
+    if ev.ctx.contract and ev.ctx.contract.ghost.get('forward'):
+        cap = list(cap or []) + list(ev.ctx.contract.ghost['forward'].keys())
+    if not cap or ev.ctx.spec_mode or not name:
+        return
+    last = name.split('.')[-1]
+    pairs = []
+    if last == 'Process':
+        target = None
+        kwdict = None
+        for k in node.keywords:
+            if k.arg == 'target':
+                target = k.value.id if isinstance(k.value, ast.Name) else \
+                    (k.value.attr if isinstance(k.value, ast.Attribute) else None)
+            if k.arg == 'kwargs' and isinstance(k.value, ast.Dict):
+                kwdict = k.value
+        if target in cap and kwdict is not None:
+            for kk, vv in zip(kwdict.keys, kwdict.values):
+                if isinstance(kk, ast.Constant) and isinstance(kk.value, str):
+                    pairs.append((target, kk.value, vv))
+    elif last in cap:
+        for k in node.keywords:
+            if k.arg is not None:
+                pairs.append((last, k.arg, k.value))
+    got = {}
+    for fname, kw, vnode in pairs:
+        try:
+            v = ev.eval(state, vnode)
+        except Unsupported:
+            v = fresh(T.OPAQUE, 'uncaptured')
+        state.ghost[f'__arg__{fname}__{kw}'] = v
+        got[(fname, kw)] = (v, vnode)
+    # contract.ghost['forward'] = {callee: [settings]}: at every call of callee, each setting must be
+    # passed by keyword and be the caller's parameter of the same name, unchanged since entry
+    fw = ev.ctx.contract.ghost.get('forward') or {}
+    for fname in {f for f, _, _ in pairs} | ({last} if last in fw else set()):
+        for setting in fw.get(fname, ()):
+            ent = ev.ctx.entry
+            ref = ent.env.get(setting) if ent is not None else None
+            if ref is None:
+                continue
+            entry_val = ent.cells[ref.cid]
+            if (fname, setting) not in got:
+                ev.ctx.oblige(state, z3.BoolVal(False), 'forward', node,
+                              f"{fname} is called with keyword {setting}")
+                continue
+            v, vnode = got[(fname, setting)]
+            try:
+                goal = values_equal(v, entry_val)
+            except Unsupported:
+                goal = z3.BoolVal(False)
+            ev.ctx.oblige(state, goal, 'forward', node,
+                          f"{fname} receives {setting} = the caller's parameter {setting}, unchanged",
+                          assume=False)
+
+
+def s_arg_of(ev, state, node):
+    fname, kw = node.args[0].value, node.args[1].value
+    v = state.ghost.get(f'__arg__{fname}__{kw}')
+    if v is None:
+        # the call (or the keyword) was not seen on this path: an arbitrary value, so that a clause
+        # about it cannot be discharged
+        return fresh(T.OPAQUE, 'no_such_argument')
+    return v
+
+
 def call(ev, state, node):
     ctx = ev.ctx
     kind, name = call_name(ev, node)
     _count_call(ev, state, node, name)
+    _capture_call(ev, state, node, name)
     if kind == 'builtin':
         h = BUILTINS.get(name)
         if h is not None:
@@ -540,6 +611,14 @@ def call_contract(ev, state, node, c, name, receiver=None):
             pre_vals[p] = volatile_view(state, pre_vals[p], fields)
     for p, v in pre_vals.items():
         spec.ghost[p] = v
+    # ghost variables the callee declares (contract ghost['vars']) and the caller declares under
+    # the same name are shared: visible to the callee's clauses, havocked by the call, constrained
+    # by its ensures (a caller that does not declare them cannot use such a callee's contract)
+    shared_ghost = {}
+    for gname in (c.ghost.get('vars') or {}):
+        if gname in state.env and gname not in pre_vals and not ctx.spec_mode:
+            shared_ghost[gname] = state.env[gname]
+            spec.ghost[gname] = read_ref(state, state.env[gname])
     old_ghost = dict(spec.ghost)
     for text, expr in c.parsed('env_assumes'):
         ctx.spec_mode += 1
@@ -600,6 +679,10 @@ def call_contract(ev, state, node, c, name, receiver=None):
     post.pc = state.pc
     post.cells = state.cells
     post.ghost = dict(post_vals)
+    for gname, gref in shared_ghost.items():
+        nv = fresh(read_ref(state, gref).ty, 'post_' + gname)
+        state.assume(*wf(nv))
+        post.ghost[gname] = nv
     post.ghost['result'] = result
     post.ghost['__old__'] = old_ghost
     for text, expr in c.parsed('ensures'):
@@ -613,6 +696,8 @@ def call_contract(ev, state, node, c, name, receiver=None):
     for p in c.mutates:
         if p in refs and refs[p] is not None:
             write_ref(state, refs[p], post_vals[p])
+    for gname, gref in shared_ghost.items():
+        write_ref(state, gref, post.ghost[gname])
     if c.returns_alias and refs.get(c.returns_alias) is not None:
         result = SymVal(result.ty, result.term, ('alias', refs[c.returns_alias]))
     return result
@@ -960,7 +1045,7 @@ def s_truthy(ev, state, node):
 
 
 SPEC_FUNCS = {
-    'local': s_local, 'truthy': s_truthy,
+    'local': s_local, 'truthy': s_truthy, 'arg_of': s_arg_of,
     'implies': s_implies, 'iff': s_iff, 'old': s_old, 'dupfree': s_dupfree,
     'sorted_strict': s_sorted_by(True), 'sorted_nondecr': s_sorted_by(False),
     'bound': s_bound, 'is_none': s_is_none, 'some': s_some,
@@ -1120,6 +1205,13 @@ def method_call(ev, state, node, name):
                 i = n - 1
             ctx.oblige(state, z3.And(-n <= i, i < n), 'IndexError', node, 'pop index in range')
             idx = z3.If(i < 0, i + n, i)
+            if not z3.is_const(recv.term):
+                # name the receiver: an ite / constructor term is not admissible inside a pattern
+                named = fresh(recv.ty, 'popped_from')
+                state.assume(named.term == recv.term)
+                recv = SymVal(recv.ty, named.term, recv.meta)
+                n = seq_len(recv)
+                idx = z3.If(i < 0, i + n, i)
             r = fresh(recv.ty, 'popped')
             j = z3.Int(fresh_name('pj'))
             state.assume(seq_len(r) == n - 1,
@@ -1215,6 +1307,13 @@ def method_call(ev, state, node, name):
             other = coerce(other, recv.ty)
             return ev.set_binop(state, {'union': 'union', 'intersection': 'inter',
                                         'difference': 'diff'}[name], recv, other)
+        if name == 'pop' and not node.args:
+            # removes and returns an arbitrary member; KeyError on the empty set
+            ctx.oblige(state, set_card(recv) > 0, 'KeyError', node, 'pop from a non-empty set')
+            x = fresh(recv.ty[1], 'popped')
+            state.assume(set_has(recv)[x.term])
+            write_ref(state, need_ref(), set_remove(recv, x.term))
+            return x
         if name in ('remove', 'discard'):
             x = coerce(ev.eval(state, node.args[0]), recv.ty[1])
             if name == 'remove':
